@@ -50,6 +50,38 @@ func phis() []phi {
 		fromCatalogue("Yanai(0.01,0.001)", functions.YanaiOzawaKaneko{Beta1: 0.01, Beta2: 0.001}),
 		fromCatalogue("Yanai(0.001,0.01)", functions.YanaiOzawaKaneko{Beta1: 0.001, Beta2: 0.01}),
 	)
+	// objectives that are undefined (NaN) or +Inf beyond a cut-off, smooth and wiggly before it
+	for _, w := range []float64{2.45 * math.Pi, 1.3 * math.Pi, 4.1 * math.Pi} {
+		for _, cut := range []float64{0.9, 1.7} {
+			for _, beyond := range []float64{math.NaN(), math.Inf(1)} {
+				w, cut, beyond := w, cut, beyond
+				out = append(out, phi{fmt.Sprintf("-sin(%.3gs)/%.3g, %v for s>%g", w, w, beyond, cut),
+					func(s float64) float64 {
+						if s > cut {
+							return beyond
+						}
+						return -math.Sin(w*s) / w
+					},
+					func(s float64) float64 {
+						if s > cut {
+							return beyond
+						}
+						return -math.Cos(w * s)
+					}})
+			}
+		}
+	}
+	out = append(out, phi{"(s-1)^2, NaN for s>1.2", func(s float64) float64 {
+		if s > 1.2 {
+			return math.NaN()
+		}
+		return (s - 1) * (s - 1)
+	}, func(s float64) float64 {
+		if s > 1.2 {
+			return math.NaN()
+		}
+		return 2 * (s - 1)
+	}})
 	return out
 }
 
@@ -124,31 +156,45 @@ const lsMaxIter = 20000
 // genLinesearch drives every Linesearcher implementation directly through its
 // Init/Iterate protocol on one-dimensional functions.
 func genLinesearch(g *vlib.G) {
-	steps := []float64{1e-3, 0.1, 1, 10, 1000}
+	steps := []float64{1e-3, 0.1, 1, 1.5, 2, 3, 10, 1000}
+	// injections: the k-th evaluation of phi returns v instead of its value
+	type inj struct {
+		k int
+		v float64
+	}
+	injs := []inj{{0, 0}}
+	for k := 1; k <= vlib.Pick(g, 3, 6); k++ {
+		injs = append(injs, inj{k, math.NaN()}, inj{k, math.Inf(1)})
+	}
 	for _, sp := range lsSpecs() {
 		for _, p := range phis() {
 			sp, p := sp, p
 			g.Case(sp.name+" phi="+p.name, func(t *vlib.T) {
-				var outs []string
+				outs := map[string]int{}
 				for _, s0 := range steps {
-					oc := driveLS(t, sp, p, s0)
-					outs = append(outs, oc)
-					t.Count("linesearches", 1)
-					t.Count("linesearch_"+oc, 1)
+					for _, in := range injs {
+						oc := driveLS(t, sp, p, s0, in.k, in.v)
+						outs[oc]++
+						t.Count("linesearches", 1)
+						t.Count("linesearch_"+oc, 1)
+					}
 				}
 				t.Nontrivial()
-				t.Outcome(strings.Join(outs, ","))
+				t.Outcome(strings.Join(vlib.SortedKeys(outs), ","))
 			})
 		}
 	}
 }
 
-func driveLS(t *vlib.T, sp lsSpec, p phi, s0 float64) string {
+// driveLS runs one line search. If injK > 0 the injK-th evaluation of phi
+// answers injV instead of the function value.
+func driveLS(t *vlib.T, sp lsSpec, p phi, s0 float64, injK int, injV float64) string {
 	ls := sp.mk()
 	f0, g0 := p.f(0), p.g(0)
 	fail := func(class, format string, a ...any) {
-		report(t, fmt.Sprintf(" step0=%g", s0), class, nil, "%s phi=%s step0=%g: %s", sp.name, p.name, s0, fmt.Sprintf(format, a...))
+		report(t, fmt.Sprintf(" step0=%g inject=%v@%d", s0, injV, injK), class, nil, "%s phi=%s step0=%g (evaluation %d answers %v): %s", sp.name, p.name, s0, injK, injV, fmt.Sprintf(format, a...))
 	}
+	nEval := 0
 	op := ls.Init(f0, g0, s0)
 	cur := s0
 	stalled := 0
@@ -163,6 +209,10 @@ func driveLS(t *vlib.T, sp lsSpec, p phi, s0 float64) string {
 		}
 		if op&optimize.FuncEvaluation != 0 {
 			fs, haveF = p.f(cur), true
+			nEval++
+			if nEval == injK {
+				fs = injV
+			}
 		}
 		if op&optimize.GradEvaluation != 0 {
 			gs, haveG = p.g(cur), true
@@ -193,9 +243,17 @@ func driveLS(t *vlib.T, sp lsSpec, p phi, s0 float64) string {
 				fail("linesearch-protocol", "MajorIteration declared at step %v but the last evaluated step was %v", step, cur)
 				return "bad-major"
 			}
-			ok, cond := sp.accept(f0, g0, cur, p.f(cur), p.g(cur))
+			// judged on the values actually returned for the accepted step
+			fAcc, gAcc := fs, gs
+			if !haveF {
+				fAcc = p.f(cur)
+			}
+			if !haveG {
+				gAcc = p.g(cur)
+			}
+			ok, cond := sp.accept(f0, g0, cur, fAcc, gAcc)
 			if !ok {
-				fail("linesearch-condition", "accepted step %v with phi=%v phi'=%v (phi(0)=%v phi'(0)=%v) violates %s", cur, p.f(cur), p.g(cur), f0, g0, cond)
+				fail("linesearch-condition", "accepted step %v with phi=%v phi'=%v (phi(0)=%v phi'(0)=%v) violates %s", cur, fAcc, gAcc, f0, g0, cond)
 				return "bad-accept"
 			}
 			t.Max("linesearch_iterations", int64(it+1))
